@@ -12,8 +12,8 @@ tests=$(cd "$D/mut" && PYTHONPATH="$D/mut/src" YAW_NUM_THREADS=1 timeout 900 /ve
 (cd "$D" && PYTHONPATH="$D/mut/src" timeout 900 /venv/bin/python "$SEED/demo.py" > "$D/demo_mut.log" 2>&1); rc_mut=$?
 (cd "$D" && PYTHONPATH="$D/clean/src" timeout 900 /venv/bin/python "$SEED/demo.py" > "$D/demo_clean.log" 2>&1); rc_clean=$?
 cd "$HERE"
-chk=$(VERIF_REPO="$D/mut" ./check "$PROP" --tier quick --no-evidence 2>/dev/null | grep -E "^\[|tier=" | cut -c1-200); 
-VERIF_REPO="$D/mut" ./check "$PROP" --tier quick --no-evidence >/dev/null 2>&1; rc_chk=$?
+VERIF_REPO="$D/mut" ./check "$PROP" --tier quick --no-evidence > "$D/check.log" 2>/dev/null; rc_chk=$?
+chk=$(grep -E "^\[|tier=" "$D/check.log" | cut -c1-200)
 echo "seed=$NAME property=$PROP"
 echo "tests_with_change: $tests"
 echo "demo_with_change_exit=$rc_mut demo_without_change_exit=$rc_clean"
